@@ -153,7 +153,9 @@ func checkSlots(r *vcore.Run, p *program, res execResult, where string) []findin
 			if m.exact != nil && V.Cmp(m.exact) != 0 {
 				bad("representation-not-as-documented", si, "integer value %s, documented value %s", V, m.exact)
 			}
-			if m.std && p.vmod == nil {
+			if m.std && p.vmod == nil && si.nLimbs == 0 && V.Sign() == 0 {
+				r.Count("shape.zero-limb-fast-path", 1) // documented: an operand on zero limbs gives the zero-limb zero
+			} else if m.std && p.vmod == nil {
 				if si.nLimbs != p.fc.nbLimbs || si.overflow != 0 {
 					bad("result-shape", si, "result has %d limbs, overflow %d; documented: default number of limbs (%d) and zero overflow", si.nLimbs, si.overflow, p.fc.nbLimbs)
 				}
@@ -209,7 +211,10 @@ func checkSlots(r *vcore.Run, p *program, res execResult, where string) []findin
 
 // judge applies the oracle to one execution and records everything.
 func judge(r *vcore.Run, p *program, res execResult, where string, replay func() any) {
-	fs := checkSlots(r, p, res, where)
+	var fs []finding
+	if p.negative == "" { // falsified variants share the honest run's intermediate values
+		fs = checkSlots(r, p, res, where)
+	}
 	for _, f := range fs {
 		r.Count("VIOLATION."+f.sig, 1)
 		r.Violation(f.sig, f.detail, replay())
@@ -226,6 +231,14 @@ func judge(r *vcore.Run, p *program, res execResult, where string, replay func()
 	if harnessErr {
 		r.Inconclusive("harness-error")
 		r.Count("harness-error:"+short(res.err), 1)
+		return
+	}
+	if p.negative == "" && res.err != nil && strings.Contains(res.err.Error(), "runtime error:") && !strings.Contains(res.err.Error(), "solve panic") {
+		// a Go runtime panic while the circuit is being defined: no constraint system / no result exists,
+		// so nothing can be incongruent: robustness observation, not a violation of C12
+		c := runtimeCulprit(res.err)
+		r.Count("robustness.define-panics."+where+":"+c, 1)
+		r.SampleClass("robustness:define-panic:"+c, map[string]any{"engine": where, "error": short(res.err), "program": firstLines(p.Text(), 80)})
 		return
 	}
 	if p.negative == "" {
@@ -251,6 +264,23 @@ func judge(r *vcore.Run, p *program, res execResult, where string, replay func()
 	}
 }
 
+// runtimeCulprit names the emulated-package function in which a runtime panic surfaced.
+func runtimeCulprit(err error) string {
+	s := err.Error()
+	kind := "runtime-error"
+	if strings.Contains(s, "nil pointer") {
+		kind = "nil-pointer"
+	} else if strings.Contains(s, "index out of range") {
+		kind = "index-out-of-range"
+	}
+	for _, fn := range []string{"Inverse", "Sqrt", "Div", "Lookup2", "Mux", "IsZero", "Select", "Exp", "ToBits", "FromBits", "Sum", "Eval"} {
+		if strings.Contains(s, "emulated.(*Field[...])."+fn+"\n") {
+			return kind + "/" + fn
+		}
+	}
+	return kind
+}
+
 // culprit names the library function at the top of a panic / error, for a stable signature.
 func culprit(err error) string {
 	s := err.Error()
@@ -260,6 +290,19 @@ func culprit(err error) string {
 		}
 	}
 	return "other"
+}
+
+// usesOf counts the operand positions that read element register reg.
+func usesOf(p *program, reg int) int {
+	n := 0
+	for _, o := range p.ops {
+		for _, a := range o.A {
+			if a == reg {
+				n++
+			}
+		}
+	}
+	return n
 }
 
 func replayOf(p *program, extra map[string]any) func() any {
@@ -281,7 +324,7 @@ func mutateExpected(rng *rand.Rand, p *program) *program {
 	for i := len(p.ops) - 1; i >= 0 && len(cands) < 3; i-- {
 		o := p.ops[i]
 		if o.K == "AssertIsEqual" || o.K == "ModAssertIsEqual" {
-			if in := p.mir[o.A[1]].input; in >= 0 && !(p.vmodReg >= 0 && o.A[1] == p.vmodReg) {
+			if in := p.mir[o.A[1]].input; in >= 0 && !(p.vmodReg >= 0 && o.A[1] == p.vmodReg) && usesOf(p, o.A[1]) == 1 {
 				cands = append(cands, in)
 			}
 		}
